@@ -230,6 +230,20 @@ func main() {
 	defer fout.Close()
 	w := bufio.NewWriter(fout)
 	defer w.Flush()
+	// progress marks (script id, operation index) written before every operation: when the library kills the process
+	// (fatal error: stack overflow, concurrent map writes, ...) the driver can name the operation that did it
+	var progress *os.File
+	if p := os.Getenv("VERIF_PROGRESS"); p != "" {
+		if f, err := os.Create(p); err == nil {
+			progress = f
+			defer f.Close()
+		}
+	}
+	mark := func(id string, i int) {
+		if progress != nil {
+			fmt.Fprintf(progress, "%s\t%d\n", id, i)
+		}
+	}
 
 	sc := bufio.NewScanner(fin)
 	sc.Buffer(make([]byte, 1<<20), 1<<28)
@@ -244,7 +258,8 @@ func main() {
 		}
 		s := &session{sdk: *sdk, v1: map[string]*v1Client{}, v2: map[string]*v2Client{}, wantDump: *dump}
 		res := result{ID: scr.ID}
-		for _, op := range scr.Ops {
+		for opIndex, op := range scr.Ops {
+			mark(scr.ID, opIndex)
 			// "esk": {"$lek": k} stands for the LastEvaluatedKey observed at step k
 			if e, ok := op["esk"].(map[string]interface{}); ok {
 				if k, ok := e["$lek"].(float64); ok {
@@ -277,5 +292,6 @@ func main() {
 		}
 		w.Write(b)
 		w.WriteByte('\n')
+		w.Flush()
 	}
 }
